@@ -479,6 +479,9 @@ func (w *World) Exec(st *Step) (res StepResult) {
 			w.gen.be.Cache.Snapshot.Purge()
 			w.fault("snapshot_cache_purged")
 		}
+	case "raw":
+		w.curCli = st.C
+		return w.execRaw(st)
 	case "revision":
 		// performed by the oracle that owns the step (ysonMonitor)
 	case "rebuild":
